@@ -150,6 +150,23 @@ func c07NamesPool() []c07Def {
 	}
 }
 
+// c07QualifierPool: a name that is a package in one definition and a variable in another.  `pq` is declared by a
+// package_info block (functions Dirq and Base) and used as a qualifier by usesPkgq; elsewhere pq is a parameter, a
+// lambda parameter or a let of record type Pinfo whose fields are read - one field (Base) has the name of a function
+// of the package, one (Size) has not.  What `pq.X` means is decided by the scope of the definition it stands in, not by
+// what an earlier definition of the invocation resolved pq to (after seed C07i: a run-wide cache of qualifiers).
+func c07QualifierPool() []c07Def {
+	return []c07Def{
+		/*0*/ {name: "PIq", src: "package_info pq =\n  type Hq\n  let Dirq: string->string\n  let Base: string->string\n", owns: func(string) bool { return false }, declOnly: true, noOutput: true},
+		/*1*/ {name: "Pinfo", src: "type Pinfo = {Base: string; Size: int}\n", owns: exact("Pinfo"), declOnly: true},
+		/*2*/ {name: "usesPkgq", src: "let usesPkgq (p:string) =\n  pq.Dirq p\n", deps: []int{0}, owns: exact("usesPkgq")},
+		/*3*/ {name: "baseOfq", src: "let baseOfq (pq: Pinfo) =\n  pq.Base\n", deps: []int{1}, owns: exact("baseOfq")},
+		/*4*/ {name: "sizeOfq", src: "let sizeOfq (pq: Pinfo) =\n  pq.Size + 1\n", deps: []int{1}, owns: exact("sizeOfq")},
+		/*5*/ {name: "lamq", src: "let lamq (r: Pinfo) =\n  let f = fun (pq: Pinfo) -> pq.Base\n  f r\n", deps: []int{1}, owns: exact("lamq")},
+		/*6*/ {name: "letq", src: "let letq (r: Pinfo) =\n  let pq = r\n  pq.Size\n", deps: []int{1}, owns: exact("letq")},
+	}
+}
+
 func c07Pool(thorough bool) []c07Def {
 	pool := []c07Def{
 		/*0*/ {name: "R", src: "type R = {A: int; B: string}\n", owns: exact("R"), declOnly: true},
@@ -427,6 +444,13 @@ func checkC07(c *core.Ctx) {
 		}
 	}
 	c07ExplorePool(c, sc, fc, nmb, [][2]int{{4, maxFiles}})
+	ql := c07QualifierPool()
+	c.Set("qualifier_pool_size", len(ql))
+	// two overlapping halves, each with all its histories: {package, record, qualifier use} + the parameter users /
+	// + the lambda and let users
+	c07ExplorePool(c, sc, fc, ql[:5], [][2]int{{5, maxFiles}})
+	qlb := append(append([]c07Def{}, ql[:3]...), ql[5:7]...)
+	c07ExplorePool(c, sc, fc, qlb, [][2]int{{5, maxFiles}})
 	inst := c07InstantiationPool()
 	c.Set("instantiation_pool_size", len(inst))
 	c07ExplorePool(c, sc, fc, inst, [][2]int{{5, maxFiles}})
